@@ -9,9 +9,9 @@ HOOKS = {
 }
 
 ENGINES = [
-    {'name': 'E1 kani-step', 'path': '/verif/kani', 'serves_properties': ['C03'],
+    {'name': 'E1 kani-step', 'path': '/verif/kani', 'serves_properties': ['C01', 'C02', 'C03', 'C04', 'C05', 'C10', 'C11', 'C12', 'C13', 'C18'],
      'kind_free_text': 'Kani 0.68 / CBMC 6.11 bounded model checking of the real planner/executor functions from symbolic pre-states of concrete shape; counterexamples extracted with concrete playback and replayed natively (/verif/replay) on the real dependency set'},
-    {'name': 'E2 mir-smt', 'path': '/verif/mir', 'serves_properties': [],
+    {'name': 'E2 mir-smt', 'path': '/verif/mir', 'serves_properties': ['C02', 'C03', 'C04', 'C06', 'C07', 'C11', 'C12', 'C13', 'C18'],
      'kind_free_text': 'symbolic execution of the nightly MIR dump of the current tree into SMT (z3, cvc5 cross-check) for loop-free generic glue code, parametric in the type parameters'},
 ]
 
@@ -19,15 +19,48 @@ KANI_NOTE = ('Trusted: Kani/CBMC/CaDiCaL; Vec-backed contract models of smallvec
              '(counterexamples are replayed on the real crates); representation invariant of the pre-state as listed in the evidence file. '
              'Bounded: only the listed shapes/resources/dependency patterns; unwinding assertions on.')
 
+MIR_NOTE = ('Trusted: rustc nightly -Zunpretty=mir (debug-assertions off) as the semantics of the source, the MIR interpreter of vlib/mir.py (unknown constructs abort with INCONCLUSIVE), z3 (every verdict re-decided by cvc5). '
+            'Callees that are type parameters / third-party code are uninterpreted; loops unrolled 3 times.')
+BOTH_NOTE = KANI_NOTE + ' ' + MIR_NOTE
+
+STEP_T = 'bounded model checking (Kani/CBMC) of one inductive planner step from a symbolic pre-state'
+EXEC_T = 'bounded model checking (Kani/CBMC) of the real executor on concrete layouts against a nondeterministic rayon contract model'
+MIR_T = 'symbolic execution of the MIR into SMT (z3, cvc5 cross-check)'
+
+
+def chk(engine, cat, ref, tech, text, note):
+    return {'engine': engine, 'category': cat, 'design_ref': ref, 'technique': tech, 'text': text, 'note': note}
+
+
 CHECKS = {
-    'C03': {'engine': 'E1 kani-step', 'category': 'model_checking', 'design_ref': 'DESIGN.md §4 C03',
-            'technique': 'bounded model checking (Kani/CBMC) of one inductive planner step from a symbolic pre-state',
-            'text': 'For every table state of the listed concrete shapes with symbolic contents and every symbolic new system, the real insertion_target never answers with a stage in front of the barrier index; together with add_barrier setting the index to the current number of stages this gives max stage(pre-barrier systems) < min stage(post-barrier systems) by induction over registrations, for histories of any length within the shape bounds.',
-            'note': KANI_NOTE},
+    'C01': chk('E1 kani-step', 'model_checking', 'DESIGN.md §4 C01', STEP_T + '; ' + EXEC_T,
+               'Step: for every table state of the listed shapes (symbolic resource ids, times, dependencies) the real insertion_target never opens a group next to, or joins a group while conflicting with another group of, a stage (W/W, W/R, R/W on full ResourceIds, harness-side oracle). Commit: the real insert stores every declared read and write in the chosen slot. Executor: on the rayon contract model only systems of different groups of one stage share a parallel region; stages never do. By induction: no two conflicting systems may overlap, within the bounds.', KANI_NOTE),
+    'C02': chk('E1 kani-step', 'model_checking', 'DESIGN.md §4 C02', STEP_T + '; ' + EXEC_T + '; ' + MIR_T,
+               'Step: every dependency of the new system sits in a strictly earlier stage or earlier in the very group it joins (0,1,2 distinct,2 equal dependencies; also in front of a barrier). Executor: stage order and in-group order are the run order. E2: DispatcherBuilder::add hands exactly the ids stored under the dependency names to insert and resolves them before the new name is recorded.', BOTH_NOTE),
+    'C03': chk('E1 kani-step', 'model_checking', 'DESIGN.md §4 C03', STEP_T + '; ' + MIR_T,
+               'For every table state of the listed shapes and every new system the real insertion_target never answers with a stage in front of the barrier index; E2: add_barrier sets the index to the current number of stages and the builder-level add_barrier forwards unconditionally. By induction max stage(pre-barrier) < min stage(post-barrier); the executor part shows stages never overlap.', BOTH_NOTE),
+    'C04': chk('E1 kani-exec', 'model_checking', 'DESIGN.md §4 C04', EXEC_T + '; ' + MIR_T,
+               'Executor harness: on every listed layout (incl. a full group of 5, three stages, thread-local systems, a batch with 0/1/2 inner dispatches) every system runs exactly once per dispatch call of every kind, for two successive calls; the rayon contract (each job once) is the stated assumption. Commit harness: one insert adds exactly one id and one boxed system to the same slot. E2: the fan-out functions are "one call per item, nothing else" for 0..3 items, MultiDispatcher::run dispatches exactly plan() times.', BOTH_NOTE),
+    'C05': chk('E1 kani-exec', 'model_checking', 'DESIGN.md §4 C05', EXEC_T,
+               'REDUCED claim: on the same built dispatcher the partial order induced by dispatch_par under the rayon contract and the total order of dispatch_seq agree on every pair that is not "same region, different job", and those pairs are the non-conflicting ones by C01. Not decided: commutation of non-conflicting steps on the real World under real interleavings.', KANI_NOTE),
+    'C06': chk('E2 mir-smt', 'other', 'DESIGN.md §4 C06', MIR_T,
+               'For all 26 tuple impls x setup/fetch/reads/writes, Read/Write/Option forms, unit, PhantomData, StaticAccessor, the blanket DynamicSystemData, the setup handlers and 7 derive samples (named, tuple, extra lifetimes, generics+where, nesting 3): reads/writes are exactly the concatenation of the members\' (z3 sequence equality), fetch/setup call every member exactly once on the caller\'s world and store member i at field i; leaves borrow exactly the cell of T shared resp. exclusive. Parametric in the member types: holds for every composition.', MIR_NOTE),
+    'C07': chk('E2 mir-smt', 'other', 'DESIGN.md §4 C07', MIR_T,
+               'add_batch: on its single path the accessor\'s reads are fetch_all_reads(inner) ++ controller reads, writes likewise (z3 sequence equality), only sort/dedup touch them, the wrapper is created from that accessor and the inner dispatcher built from the inner builder and registered through the ordinary add; the wrapper reports exactly that accessor and fetches nothing. Depth follows because a nested batch is an ordinary system of the inner builder.', MIR_NOTE),
+    'C10': chk('E1 kani-step', 'model_checking', 'DESIGN.md §4 C10', STEP_T + '; ' + EXEC_T,
+               'Step: whenever the real insertion_target skips a stage at or after the barrier, that stage holds a conflicting group or a dependency sits in it or later (property verbatim), for every listed shape, barrier, and dependency pattern incl. dependencies in front of a barrier and the same name twice. max_threads equals the widest stage of the executed layout on every exec layout.', KANI_NOTE),
+    'C11': chk('E1 kani-exec', 'model_checking', 'DESIGN.md §4 C11', EXEC_T + '; ' + MIR_T,
+               'REDUCED claim (no liveness): every group of a stage is a distinct job of ONE parallel for_each region inside ONE install on the dispatcher\'s pool; the default pool is built without an explicit thread count; the batch\'s inner dispatcher uses the same shared pool handle. Not decided: that real rayon overlaps the jobs.', BOTH_NOTE),
+    'C12': chk('E1 kani-exec', 'model_checking', 'DESIGN.md §4 C12', EXEC_T + '; ' + MIR_T,
+               'Executor harness: thread-local systems run after all ordinary ones, in registration order, outside the pool, only in dispatch / dispatch_thread_local; try_into_sendable is Ok exactly for 0 thread-local systems and preserves the layout. E2: dispatch = parallel part then thread-local loop; AsyncDispatcher::wait takes the state back and then runs each thread-local system once on every path. Known finding KF1 (add_batch of a builder with thread-local systems) is reported as KNOWN-FINDING.', BOTH_NOTE),
+    'C13': chk('E1 kani-exec', 'model_checking', 'DESIGN.md §4 C13', EXEC_T + '; ' + MIR_T,
+               'Executor harness: setup and dispose reach every ordinary, thread-local and batched system exactly once on every listed layout. E2: the fan-out functions, the blanket RunNow impl and the batch wrapper forward setup/dispose exactly once; DefaultProvider::setup is entry().or_insert_with(default) and nothing else; PanicHandler / Option setups are empty.', BOTH_NOTE),
+    'C18': chk('E1 kani-step', 'model_checking', 'DESIGN.md §4 C18', STEP_T + '; ' + MIR_T,
+               'Totality: every reachable panic (unwrap, overflow, indexing, group capacity) inside insertion_target/find_conflict/remove_ids/improves_balance and the commit is a CBMC check on every listed shape, and a joined group always has room; by induction no well-formed sequence panics. E2: add panics exactly on an unknown dependency or a reused non-empty name, quoting it, before anything is inserted; the empty name never touches the map.', BOTH_NOTE),
 }
 
 UNDER_CONSTRUCTION = 'check under construction in this session; not claimed yet'
-NOT_APPLICABLE = {p: UNDER_CONSTRUCTION for p in ['C01', 'C02', 'C04', 'C05', 'C06', 'C07', 'C08', 'C09', 'C10', 'C11', 'C12', 'C13', 'C16', 'C17', 'C18', 'C19', 'C20']}
+NOT_APPLICABLE = {p: UNDER_CONSTRUCTION for p in ['C08', 'C09', 'C16', 'C17', 'C19', 'C20']}
 NOT_APPLICABLE.update({
     'C14': 'needs unwinding semantics (catch_unwind, drop during unwind, rayon panic propagation); Kani/CBMC end a path at a panic and the MIR route would need std/rayon unwinding encoded - solver-based checking of the real code cannot reach it here',
     'C15': 'needs real threads, ThreadPool::spawn and blocking std::sync::mpsc receive; Kani has no thread model and a sequential stand-in would verify the stand-in, not shred',
